@@ -365,6 +365,8 @@ bool AutomationMgr::handleMidi(int channel, int type, int val)
         if(bound_nrpn)
             return 1;
         }
+        else //the (N)RPN message is not complete yet, nothing to map or learn
+            return 0;
         
     }
     else {
